@@ -36,5 +36,9 @@ def run_atheris(ctx, mode, runs, seeds, tokens, max_len=400, timeout=1500):
     if os.path.exists(findings):
         with open(findings) as f:
             finding = json.load(f)
+    stats = {}
+    if os.path.exists(findings + '.stats'):
+        with open(findings + '.stats') as f:
+            stats = json.load(f)
     note = '' if (p.returncode == 0 or finding) else f'fuzzer exited with {p.returncode}: {err[-400:]}'
-    return dict(available=True, executed=executed, finding=finding, note=note)
+    return dict(available=True, executed=executed, finding=finding, note=note, stats=stats)
